@@ -235,6 +235,9 @@ def parse(text):
                 args = [a.strip() for a in text[j + 1:k].split(",")]
                 toks.append(("atom", (name,) + tuple(args)))
                 i = k + 1
+            elif name == "ANY":
+                toks.append(("atom", ("anycond",)))
+                i = j
             elif name in ("true", "false"):
                 toks.append(name == "true")
                 i = j
